@@ -171,17 +171,32 @@ pub struct ChildRun {
 
 /// Start the same check in another back end's binary concurrently; `join_children` folds the results in.
 pub fn spawn_child(backend: &str, prop: &str, tier: &str) -> ChildRun {
-    if std::env::var("VERIF_CHILD").is_ok() || replay().is_some() {
-        return ChildRun { backend: backend.to_string(), handle: None };
+    spawn_child_env(backend, backend, prop, tier, vec![], 8)
+}
+
+/// `backend` selects the binary ("self" = this executable); `name` labels the run; `env` is added.
+pub fn spawn_child_env(name: &str, backend: &str, prop: &str, tier: &str, env: Vec<(String, String)>, threads: usize) -> ChildRun {
+    if (std::env::var("VERIF_CHILD").is_ok() && backend != "self") || replay().is_some() {
+        return ChildRun { backend: name.to_string(), handle: None };
     }
-    let (b, p, t) = (backend.to_string(), prop.to_string(), tier.to_string());
+    let (b, p, t, nm) = (backend.to_string(), prop.to_string(), tier.to_string(), name.to_string());
     let handle = std::thread::spawn(move || {
         let root = verif_root();
-        let bin = root.join("harness/target").join(&b).join("release/vcheck");
-        let out = root.join("out").join(format!("child-{}-{}-{}.json", p, b, std::process::id()));
+        let bin = if b == "self" { std::env::current_exe().map_err(|e| e.to_string())? } else { root.join("harness/target").join(&b).join("release/vcheck") };
+        let out = root.join("out").join(format!("child-{}-{}-{}.json", p, nm.replace('/', "_"), std::process::id()));
         let _ = std::fs::create_dir_all(root.join("out"));
-        let st = std::process::Command::new(&bin).arg(&p).arg(&t).env("VERIF_CHILD", &b).env("VERIF_EVIDENCE_OUT", &out).env("RAYON_NUM_THREADS", "8").status().map_err(|e| format!("cannot run {}: {}", bin.display(), e))?;
+        let mut cmd = std::process::Command::new(&bin);
+        cmd.arg(&p).arg(&t).env("VERIF_CHILD", &nm).env("VERIF_EVIDENCE_OUT", &out).env("RAYON_NUM_THREADS", threads.to_string());
+        for (k, v) in env {
+            cmd.env(k, v);
+        }
+        let st = cmd.status().map_err(|e| format!("cannot run {}: {}", bin.display(), e))?;
+        // a process killed by a signal (abort, stack overflow) has no exit code
         let code = st.code().unwrap_or(134);
+        if !matches!(code, 0 | 1 | 2) {
+            let _ = std::fs::remove_file(&out);
+            return Ok((code, serde_json::json!({"aborted": true, "coverage": {}, "violations": 0})));
+        }
         let ev: Value = std::fs::read_to_string(&out).ok().and_then(|t| serde_json::from_str(&t).ok()).unwrap_or(Value::Null);
         let _ = std::fs::remove_file(&out);
         if ev.is_null() {
